@@ -1,6 +1,7 @@
 /-! # `ofp_match` — executable model of `pox/openflow/libopenflow_01.py` class `ofp_match`   (core Lean only)
 
-Mirrors (line numbers of the pinned tree, after the proposed repairs D22 and D29 — see `/verif/fixes`):
+Mirrors `/repo` HEAD (repairs D22 and D29 committed; line numbers as of the first build, they move with every fix commit — the
+harness anchors the functions by name).  The proposed repairs D26 / D37 / D38 are modelled in `Model/MatchV.lean`:
 
 * the wildcard word `OFPFW_*` (`:512-537`): ten single-bit flags and the two 6-bit IP prefix counters;
 * `__getattr__` / `get_nw_src` / `get_nw_dst` (`:1055-1067,1145-1155`)      → `view`, `nwView`;
